@@ -42,6 +42,21 @@ def eq(a, b):
     return 1 if r else 0
 
 
+def complete_model(env, rel):
+    """extend a model of the relevant constraints to a model of the whole path condition (the remaining constraints
+    have disjoint support by construction of relevant_pc) and through the affine substitutions"""
+    rest = [q for q in C.pc_other if q not in rel]
+    full = dict(env)
+    if rest:
+        st, env2 = solve(rest, want_model=True)
+        if st == "sat" and env2:
+            for a, v in env2.items():
+                full.setdefault(a, v)
+    for piv, rhs in C.subst.items():
+        full[piv] = peval(rhs, full)
+    return full
+
+
 def prove(cond, name):
     """obligation: cond holds on the current path"""
     t0 = time.time()
@@ -66,7 +81,7 @@ def prove(cond, name):
                 env[piv] = _pe(rhs, env)
             if all(_pe(q, env) for q in rel) and not _pe(p, env):
                 LOG.append((name, "REFUTED-random", time.time() - t0))
-                raise Refuted(name, env)
+                raise Refuted(name, complete_model({a: env[a] for a in free}, rel))
         except KeyError:
             break
     before = dict(C.stats)
@@ -75,11 +90,7 @@ def prove(cond, name):
     if st == "unsat":
         LOG.append((name, be, time.time() - t0))
         return be
-    # complete the model through the affine substitutions
-    full = dict(env)
-    for piv, rhs in C.subst.items():
-        full[piv] = peval(rhs, full)
-    raise Refuted(name, full)
+    raise Refuted(name, complete_model(env, rel))
 
 
 def concretise(x, env):
